@@ -542,7 +542,10 @@ def parse_idx(s):
 
 
 def strip(c):
-    return {"segs": c["segs"], "groups": c["groups"]}
+    d = {"segs": c["segs"], "groups": c["groups"]}
+    if c.get("via_file"):
+        d["via_file"] = True
+    return d
 
 
 # ----------------------------------------------------------------------------- shrinking
@@ -567,7 +570,7 @@ def shrink(ck, case, key, deadline):
                 gs = [dict(h) for h in cur["groups"]]
                 gs[k] = dict(g, includes=g["includes"][:j] + g["includes"][j + 1:])
                 cands.append({"segs": cur["segs"], "groups": gs})
-        cands = [c for c in cands if well_formed(c)][:300]
+        cands = [dict(c, via_file=True) if cur.get("via_file") else c for c in cands if well_formed(c)][:300]
         if not cands:
             break
         rs = ck.impl("c14_impl.py", {"cases": cands}, timeout=300)["results"]
@@ -607,6 +610,13 @@ def run(ck):
     cases = [dict(c) for c in CORPUS]
     while len(cases) < n:
         cases.append(gen_case(ck.rng, big=(ck.rng.random() < 0.3)))
+    # the corpus again, and a quarter of the generated cells, as cells READ FROM A FILE (segments are needed to write one)
+    for c in [dict(c, kind=c["kind"] + ":from-file") for c in CORPUS]:
+        cases.append(c)
+    for c in cases:
+        if c["segs"] and (c["kind"].endswith(":from-file") or (not c["kind"].startswith("corpus") and ck.rng.random() < 0.25)):
+            c["via_file"] = True
+            ck.tally("cell-read-from-file")
     nh = ck.n(160, 2500)
     hists = [copy.deepcopy(h) for h in HISTORY_CORPUS]
     while len(hists) < nh:
